@@ -121,6 +121,7 @@ class State:
         self.diffs = {}       # (a, b) -> d : a - b <= d
         self.variants = {}    # key -> frozenset(variant names)
         self.sums = {}        # (a, b) sorted -> (lo, hi): bounds on sym a + sym b
+        self.exprs = {}       # sid -> ("add"|"sub", termA, termB): sid == A + B / A - B exactly
         self.dead = False
 
     def sum_bound(self, a, b):
@@ -138,6 +139,7 @@ class State:
     def copy(self):
         s = State()
         s.sums = dict(self.sums)
+        s.exprs = dict(self.exprs)
         s.vals = dict(self.vals)
         s.syms = dict(self.syms)
         s.diffs = dict(self.diffs)
@@ -206,6 +208,8 @@ class State:
             d = self.diffs.get((a[1], b[1]))
             if d is not None and d + a[2] - b[2] + k <= 0:
                 return True
+            if self._le_via_exprs(a, b, k):
+                return True
             # one-step transitivity through a third symbol
             for (x, y), d1 in self.diffs.items():
                 if x == a[1]:
@@ -214,6 +218,24 @@ class State:
                         return True
                     if y == b[1]:
                         continue
+        return False
+
+    def _le_via_exprs(self, a, b, k, depth=0):
+        """a = x + y (+off) with y <= s and s = p - x   =>   a <= p (+off)"""
+        if depth > 1 or a[0] != "s":
+            return False
+        ex = self.exprs.get(a[1])
+        if not ex or ex[0] != "add":
+            return False
+        for x, y in ((ex[1], ex[2]), (ex[2], ex[1])):
+            for sid_s, e2 in self.exprs.items():
+                if e2[0] != "sub" or e2[2] != x:
+                    continue
+                if y is not None and self.le(y, ("s", sid_s, 0)):
+                    p = e2[1]
+                    shifted = ("c", p[1] + a[2] + k) if p[0] == "c" else ("s", p[1], p[2] + a[2] + k)
+                    if shifted == b or self.le(shifted, b):
+                        return True
         return False
 
     def assume_le(self, a, b, strict=False):
@@ -379,13 +401,25 @@ def join_states(states, bb, body):
                         ds2.append(-t[2])
                     else:
                         d = s.diffs.get((t[1], other))
-                        ds.append(d + t[2] if d is not None else None)
+                        if d is None and s.le(t, ("s", other, 0)):
+                            ds.append(0)
+                        else:
+                            ds.append(d + t[2] if d is not None else None)
                         d2 = s.diffs.get((other, t[1]))
-                        ds2.append(d2 - t[2] if d2 is not None else None)
+                        if d2 is None and s.le(("s", other, 0), t):
+                            ds2.append(0)
+                        else:
+                            ds2.append(d2 - t[2] if d2 is not None else None)
             if ds and all(d is not None for d in ds):
                 out.diffs[(psid, other)] = max(ds)
             if ds is not None and ds2 and all(d is not None for d in ds2):
                 out.diffs[(other, psid)] = max(ds2)
+    ek = set(states[0].exprs)
+    for s in states[1:]:
+        ek &= set(s.exprs)
+    for sid in ek:
+        if all(s.exprs[sid] == states[0].exprs[sid] for s in states[1:]):
+            out.exprs[sid] = states[0].exprs[sid]
     smk = set(states[0].sums)
     for s in states[1:]:
         smk &= set(s.sums)
@@ -394,6 +428,42 @@ def join_states(states, bb, body):
         for s in states[1:]:
             it = ijoin(it, s.sums[p])
         out.sums[p] = it
+    # relations between two phi symbols of this join (e.g. loop-carried `offset <= size` of struct fields)
+    phis = [(k, out.vals[k].sym[0]) for k in keys if out.vals.get(k) is not None and out.vals[k].sym is not None and out.vals[k].sym[0].startswith("phi:%d:" % bb)]
+    if 2 <= len(phis) <= 14:
+        for (k1, p1) in phis:
+            for (k2, p2) in phis:
+                if k1 == k2:
+                    continue
+                best = []
+                for s in states:
+                    t1, t2 = s.term(s.vals[k1]), s.term(s.vals[k2])
+                    if t1 is None or t2 is None:
+                        best = None
+                        break
+                    d = None
+                    if t1[0] == "c" and t2[0] == "c":
+                        d = t1[1] - t2[1]
+                    elif t1[0] == "s" and t2[0] == "s":
+                        if t1[1] == t2[1]:
+                            d = t1[2] - t2[2]
+                        else:
+                            e = s.diffs.get((t1[1], t2[1]))
+                            if e is not None:
+                                d = e + t1[2] - t2[2]
+                    if d is None:
+                        if s.le(t1, t2):
+                            d = 0
+                        else:
+                            i1, i2 = s.itv_term(t1), s.itv_term(t2)
+                            if i1[1] != INF and i2[0] != -INF:
+                                d = i1[1] - i2[0]
+                    if d is None:
+                        best = None
+                        break
+                    best.append(d)
+                if best:
+                    out.diffs[(p1, p2)] = max(best)
     vk = set(states[0].variants)
     for s in states[1:]:
         vk &= set(s.variants)
@@ -408,7 +478,7 @@ def join_states(states, bb, body):
 def states_equal(a, b):
     if a is None or b is None:
         return a is b
-    if a.vals != b.vals or a.variants != b.variants or a.diffs != b.diffs or a.sums != b.sums:
+    if a.vals != b.vals or a.variants != b.variants or a.diffs != b.diffs or a.sums != b.sums or a.exprs != b.exprs:
         return False
     used = set()
     for v in a.vals.values():
@@ -429,9 +499,12 @@ INTERIOR_MUT = re.compile(r"Cell<|Atomic|Mutex<|RwLock<|OnceLock|LazyLock|OnceCe
 class Analyzer:
     """analysis of one body. entry: dict arg_index -> dict(len_min=, len_max=, itv=(lo,hi))"""
 
-    def __init__(self, body, prog, entry=None, summaries=None):
+    def __init__(self, body, prog, entry=None, summaries=None, engine=None, invariants=None, depth=0):
         self.body = body
         self.prog = prog
+        self.engine = engine
+        self.invariants = invariants or {}
+        self.depth = depth
         self.entry = entry or {}
         self.summaries = summaries
         self.cfg = body.cfg()
@@ -849,6 +922,7 @@ class Analyzer:
                 v.sym = (sid, 0)
                 v.ty = None
                 st.syms[sid] = it
+                st.exprs[sid] = ("add", ("s", a.sym[0], a.sym[1]), ("s", b.sym[0], b.sym[1]))
                 # result - b <= hi(a) ; result - a <= hi(b); and lower bounds
                 if ia[1] != INF:
                     st.diffs[(sid, b.sym[0])] = min(st.diffs.get((sid, b.sym[0]), INF), ia[1] + b.sym[1])
@@ -883,7 +957,7 @@ class Analyzer:
             st.syms[sid] = it
             v.ty = None
             if ta is not None and tb is not None and tb[0] == "s" and ta[0] == "s":
-                pass
+                st.exprs[sid] = ("sub", ta, tb)
             # remember: result + b == a  (result <= a when b >= 0)
             if ta is not None and ta[0] == "s" and ib[0] >= 0:
                 st.diffs[(sid, ta[1])] = min(st.diffs.get((sid, ta[1]), INF), ta[2] - ib[0])
@@ -1115,6 +1189,8 @@ class Analyzer:
             fsid = "f:%s" % sub
             st.syms[fsid] = itv
             st.vals[sub] = V(sym=(fsid, 0))
+        for (ka, kb, d) in (self.entry.get("field_diffs") or []):
+            st.diffs[("f:%s" % ka, "f:%s" % kb)] = d
         return st
 
     def run(self, max_iter=60):
@@ -1205,7 +1281,7 @@ class Analyzer:
         # difference bounds that are not stable are dropped
         for p, d in list(new.diffs.items()):
             od = old.diffs.get(p)
-            if od is None or d > od:
+            if od is not None and d > od:
                 if p[0].startswith("phi:%d:" % bb) or p[1].startswith("phi:%d:" % bb):
                     del new.diffs[p]
         return new
@@ -1264,6 +1340,127 @@ class Analyzer:
             return [(t["t"], s2)]
         return []
 
+    def inject_invariant(self, st, key, inv):
+        for f, itv in inv.get("fields", {}).items():
+            fsid = "inv:%s.%s" % (key, f)
+            # a fresh symbol per (place, field) is sound: the callee re-established the invariant
+            n = 0
+            while "%s#%d" % (fsid, n) in st.syms:
+                n += 1
+            fsid = "%s#%d" % (fsid, n)
+            st.syms[fsid] = itv
+            st.vals["%s.%s" % (key, f)] = V(sym=(fsid, 0))
+        for (fa, fb, d) in inv.get("diffs", []):
+            va, vb = st.vals.get("%s.%s" % (key, fa)), st.vals.get("%s.%s" % (key, fb))
+            if va is not None and vb is not None and va.sym and vb.sym:
+                st.diffs[(va.sym[0], vb.sym[0])] = d + vb.sym[1] - va.sym[1]
+
+    def reassume_invariant(self, st, t, args):
+        if not self.invariants or not args:
+            return
+        f = t["fn"]
+        callee = self.prog.body(f.get("resolved") or f.get("path") or "")
+        if callee is None or not callee.impl_self:
+            return
+        base = re.sub(r"<.*$", "", callee.impl_self)
+        inv = self.invariants.get(base)
+        if inv is None:
+            return
+        a0 = args[0]
+        if a0.ref_to is not None and a0.is_mut:
+            self.inject_invariant(st, a0.ref_to, inv)
+
+    def local_callee_result(self, st, t, args, dty, sid):
+        """abstract result of a crate-local callee analysed with the actual arguments' abstractions (context-sensitive, depth <= 2)"""
+        f = t["fn"]
+        if not f.get("resolved_local") or f.get("resolved") is None:
+            return None
+        callee = self.prog.body(f["resolved"])
+        if callee is None or callee.path == self.body.path or len(callee.blocks) > 120:
+            return None
+        entry = {}
+        fields = {}
+        fdiffs = []
+        for i, (a, o) in enumerate(zip(args, t["args"])):
+            e = {}
+            it = st.itv(a)
+            if a.const is not None or a.sym is not None:
+                e["itv"] = it
+            if a.len is not None:
+                li = st.itv_term(a.len)
+                e["len_min"], e["len_max"] = max(0, li[0]), li[1]
+            if e:
+                entry[i + 1] = e
+            if a.ref_to is not None:
+                pre = a.ref_to + "."
+                sub = {}
+                for k, v in st.vals.items():
+                    if k.startswith(pre) and "." not in k[len(pre):] and (v.const is not None or v.sym is not None):
+                        sub[k[len(pre):]] = v
+                for fn_, v in sub.items():
+                    fields["(*_%d).%s" % (i + 1, fn_)] = st.itv(v)
+                names = list(sub)
+                for x in names:
+                    for y in names:
+                        if x != y:
+                            tx, ty_ = st.term(sub[x]), st.term(sub[y])
+                            if tx and ty_ and st.le(tx, ty_):
+                                fdiffs.append(("(*_%d).%s" % (i + 1, x), "(*_%d).%s" % (i + 1, y), 0))
+        if fields:
+            entry["fields"] = fields
+        if fdiffs:
+            entry["field_diffs"] = fdiffs
+        try:
+            can = self.engine.analyze(callee.path, entry, depth=self.depth + 1, invariants=self.invariants)
+        except Exception:
+            return None
+        rets = [r for r in can.cfg.returns if r in can.results]
+        if not rets:
+            return None
+        rty = callee.local_ty(0)
+        itv = None
+        leni = None
+        lensym = None
+        for r in rets:
+            rs = can.results[r]
+            rv = rs.vals.get("_0")
+            if rv is None:
+                return None
+            if rv.const is not None or rv.sym is not None:
+                i2 = rs.itv(rv)
+                itv = i2 if itv is None else ijoin(itv, i2)
+            if rv.len is not None:
+                l2 = rs.itv_term(rv.len)
+                leni = l2 if leni is None else ijoin(leni, l2)
+                ex = rs.exprs.get(rv.len[1]) if rv.len[0] == "s" and rv.len[2] == 0 else None
+                ls = None
+                if ex and ex[0] == "sub" and all(tt[0] == "s" and tt[1].startswith("f:(*_") and tt[2] == 0 for tt in ex[1:]):
+                    ls = (ex[1][1], ex[2][1])
+                lensym = ls if (lensym is None or lensym == ls) and len(rets) == 1 else False
+        out = V(ty=dty)
+        if itv is not None and ty_range(dty or ""):
+            st.syms[sid] = clip(itv, dty)
+            out.sym = (sid, 0)
+        if leni is not None:
+            lsid = sid + "#len"
+            st.syms[lsid] = (max(0, leni[0]), leni[1])
+            out.len = ("s", lsid, 0)
+            if lensym:
+                # len == (*_i).A - (*_j).B of the callee: map back to the caller's places
+                def back(fsid):
+                    m = re.match(r"^f:\(\*_(\d+)\)\.(\w+)$", fsid)
+                    if not m:
+                        return None
+                    a = args[int(m.group(1)) - 1]
+                    if a.ref_to is None:
+                        return None
+                    return st.term(st.vals.get("%s.%s" % (a.ref_to, m.group(2))))
+                ta, tb = back(lensym[0]), back(lensym[1])
+                if ta is not None and tb is not None and ta[0] == "s" and tb[0] == "s":
+                    st.exprs[lsid] = ("sub", ta, tb)
+                    st.diffs[(lsid, ta[1])] = min(st.diffs.get((lsid, ta[1]), INF), ta[2] - st.itv_term(tb)[0])
+        return out if out.key() != TOPV.key() else None
+
     # ---- calls --------------------------------------------------------------------------------------------------------
     def do_call(self, st, t, bb):
         from . import summaries
@@ -1294,5 +1491,10 @@ class Analyzer:
         v = self.ensure_sym(st, self.top_for(dty, sid), sid)
         if res is not None:
             v = res
+        elif self.engine is not None and self.depth < 2:
+            lv = self.local_callee_result(st, t, args, dty, sid)
+            if lv is not None:
+                v = lv
         if v.key() != TOPV.key():
             st.vals[dkey] = v
+        self.reassume_invariant(st, t, args)
